@@ -71,7 +71,7 @@ private theorem persistent_answer {K : Consts} (hK : ConstsOk K) {cfg : Cfg} {us
   rw [ha] at hspec
   obtain ⟨_, _, _, _, hres, _⟩ := specStep_parts hspec
   simp only [resOk, Bool.and_eq_true, beq_iff_eq] at hres
-  obtain ⟨⟨⟨hown, _⟩, hreg⟩, _⟩ := hres
+  obtain ⟨⟨⟨⟨hown, _⟩, hreg⟩, _⟩, _⟩ := hres
   cases hat : a.text with
   | none => simp [ownedBy, hat] at hown
   | some t =>
@@ -204,7 +204,7 @@ theorem C18_transient_fresh {K : Consts} (hK : ConstsOk K) {cfg : Cfg} {users : 
   rw [ha] at hspec
   obtain ⟨_, _, _, _, hres, _⟩ := specStep_parts hspec
   simp only [resOk, Bool.and_eq_true] at hres
-  obtain ⟨hown, hfresh⟩ := hres
+  obtain ⟨⟨⟨hown, _⟩, _⟩, hfresh⟩ := hres
   cases hat : a.text with
   | none => simp [hat] at hfresh
   | some t =>
